@@ -90,7 +90,7 @@ def consistent(ctx, o, kind, name, real, hist):
     return True
 
 
-PROBES = [("pure", None), ("phospho", None), ("html", None), ("kappa", None), ("deltaMaxPerm", None)]
+PROBES = [("pure", None), ("phospho", None), ("html", None), ("kappa", None), ("deltaMaxPerm", "np.bool_"), ("deltaMaxPerm", None)]
 
 
 def probe(ctx, lc, defaults, objs, hist, probes=None):
@@ -165,7 +165,7 @@ def random_palette(rng):
     elif kind == "missing":
         del d[rng.choice(common.AA)]
     elif kind == "badcolour":
-        d[rng.choice(common.AA)] = rng.choice(["pink", "", "rgb(1,2,3)", "#ff0000"])
+        d[rng.choice(common.AA)] = rng.choice(["pink", "", "rgb(1,2,3)", "#ff0000", "lack", "ray", "e", "red silver", " red", "red ", "gree"])
     elif kind == "case":
         d[rng.choice(common.AA)] = rng.choice(["Red", "BLUE"])
     elif kind == "nonstring":
@@ -210,6 +210,8 @@ def record_history(ctx, lc, defaults, tid, nobj, ncalls, maxlen=30):
                 name = rng.choice(objmodel.PHOSPHO_NAMES)
             elif kind == "derived":
                 name = rng.choice(objmodel.DERIVED_NAMES)
+            elif kind == "deltaMaxPerm":
+                name = rng.choice(objmodel.PERM_FLAGS)
             real = objmodel.one_call(objs[o], kind, name)
             fresh = objmodel.fresh_reply(lc, defaults, objs[o], kind, name)
             consistent(ctx, objs[o], kind, name, real, "random history %d" % tid)
